@@ -445,6 +445,17 @@ def _compile_variant(src, name, defs, opt="-O0", timeout=3000, extra=()):
     return out, ""
 
 
+def _first_error(err):
+    lines = [l for l in err.splitlines() if " error: " in l or l.startswith("error: ")]
+    return ("a program of the family does not compile: " + " | ".join(lines[:2]))[:800] if lines else err[-800:]
+
+
+def _is_cxx_diagnostic(err):
+    """a compile failure counts as a violation only when the compiler rejected the
+    program (a C++ diagnostic), not when the compilation itself could not run"""
+    return " error: " in err or "\nerror: " in err or " error " in err and "ld returned" in err
+
+
 def _run_family(res, src, variants, compile_failure_is_violation=False, run_timeout=600, run_args=()):
     """variants: list of (name, defs, description). Compiles and runs them all
     on the pool; returns (cands, samples, summaries)"""
@@ -462,8 +473,8 @@ def _run_family(res, src, variants, compile_failure_is_violation=False, run_time
         for v, r, err, dt in ex.map(one, variants):
             name, defs, desc = v
             if r is None:
-                if compile_failure_is_violation:
-                    cands.append({"case": desc, "kind": "does_not_compile", "detail": err[-800:],
+                if compile_failure_is_violation and _is_cxx_diagnostic(err):
+                    cands.append({"case": desc, "kind": "does_not_compile", "detail": _first_error(err),
                                   "variant": [name, defs]})
                 else:
                     res.harness_errors.append("program %s does not compile against %s:\n%s" % (desc, C.INCLUDE, err))
@@ -549,7 +560,8 @@ def c09(res, tier, deadline):
                        "four lattices of four real classes; registries beyond that are covered through virtual_ptr shapes of engine E1"]
     depth = "4" if tier == "quick" else "5"
     variants = [("vptr_lat%d" % l, ["LATTICE=%d" % l], "lattice %d" % l) for l in range(4)]
-    cands, samples, sums = _run_family(res, "vptr.cpp", variants, run_args=[depth], run_timeout=3000)
+    cands, samples, sums = _run_family(res, "vptr.cpp", variants, run_args=[depth], run_timeout=3000,
+                                       compile_failure_is_violation=True)
     for s in sums:
         res.states += s["cases"] + s["histories"]
         res.traces += s["cases"] + s["histories"]
@@ -588,7 +600,7 @@ def c20(res, tier, deadline):
                 "not defined); product enumerates row-major; apply_product agrees. Non-trivial = "
                 "neither no nor all combinations defined.")
     res.assumptions = ["arity <= 3 type lists (a fourth list only multiplies the product)",
-                       "programs are compiled with g++ -O0; a program of the family that does not compile is a harness error (compilability is not the property)"]
+                       "programs are compiled with g++ -O0; the family uses the documented interface only, so a member the compiler rejects (a C++ diagnostic, not a failed compiler run) is reported as a violation: no definition can be registered for it"]
     variants = []
     for (a, b, c_) in _small_shapes():
         for hm in (0, 1):
@@ -613,7 +625,7 @@ def c20(res, tier, deadline):
                              ["UD_L1=%d" % a, "UD_L2=%d" % b, "UD_L3=0", "HASMETHOD=0", "MASKMODE=1",
                               "ONLY_PATTERN=%d" % pat],
                              "lists %dx%d (%d combinations) pattern %d" % (a, b, a * b, pat)))
-    cands, samples, sums = _run_family(res, "usedefs.cpp", variants)
+    cands, samples, sums = _run_family(res, "usedefs.cpp", variants, compile_failure_is_violation=True)
     for s in sums:
         res.states += s["cases"]
         res.traces += s["cases"]
@@ -653,8 +665,8 @@ def _gen_family(res, tus, extra_flags=(), compile_failure_is_violation=False, va
         for tu, r, err, dt in ex.map(one, tus):
             name, src, descs = tu
             if r is None:
-                if compile_failure_is_violation:
-                    cands.append({"case": name, "kind": "does_not_compile", "detail": err[-800:], "tu": name + variant_tag})
+                if compile_failure_is_violation and _is_cxx_diagnostic(err):
+                    cands.append({"case": name, "kind": "does_not_compile", "detail": _first_error(err), "tu": name + variant_tag})
                 else:
                     res.harness_errors.append("generated program %s does not compile against %s:\n%s" % (name, C.INCLUDE, err))
                 continue
@@ -721,7 +733,8 @@ def c11(res, tier, deadline):
     allc, alls = [], []
     d = None
     for tag, flags in (("_rel", ["-DNDEBUG"]), ("_dbg", [])):
-        cands, samples, sums, d = _gen_family(res, tus, extra_flags=flags, variant_tag=tag)
+        cands, samples, sums, d = _gen_family(res, tus, extra_flags=flags, variant_tag=tag,
+                                              compile_failure_is_violation=True)
         for s in sums:
             res.states += s["cases"]
             res.traces += s["cases"]
@@ -848,7 +861,8 @@ def replay(prop, cand, path):
             tier = "thorough" if "_thorough_" in tu else "quick"
             tus = [t for t in gen_args.translation_units(tier) if tu.startswith(t[0])]
             flags = ["-DNDEBUG"] if tu.endswith("_rel") else []
-            cands, samples, sums, d = _gen_family(res, tus, extra_flags=flags, variant_tag=tu[-4:])
+            cands, samples, sums, d = _gen_family(res, tus, extra_flags=flags, variant_tag=tu[-4:],
+                                                  compile_failure_is_violation=True)
             hit = [x for x in cands if x["detail"] == cand["detail"] and x["case"] == cand.get("orig_case")]
             for x in cands[:5]:
                 print("CAND", x["case"], x["detail"])
